@@ -132,6 +132,42 @@ Theorem failed_call_store_grows : forall n fr f args s v s', call n fr f args s 
 Proof. exact call_err_store_grows_lemma. Qed.
 Print Assumptions failed_call_store_grows.
 
+(* ---- M-VM (transcription of LState.PCall in _state.go): the two heights the property names ---- *)
+From GL Require VMX.Machine VMX.Step VMX.PCallFacts.
+
+(* PCall never lets an error through, whatever the callee, handler, state or re-entered main loop *)
+Theorem vm_PCall_never_errs : forall ml nargs nret h s e s',
+  Step.PCall ml nargs nret h s <> Machine.VErr e s'.
+Proof. exact PCallFacts.PCall_never_errs. Qed.
+Print Assumptions vm_PCall_never_errs.
+
+(* after a failed protected call: reg.top is the callee's slot, the frame stack is the bottom of the
+   failing state's frame stack *)
+Theorem vm_PCall_error_heights : forall ml nargs nret h s e s',
+  Step.PCall ml nargs nret h s = Machine.VRet (Some e) s' ->
+  Machine.rtop (Machine.vreg s') = Machine.rtop (Machine.vreg s) - nargs - 1 /\
+  exists sf, Machine.vstack s' = skipn (length (Machine.vstack sf) - length (Machine.vstack s)) (Machine.vstack sf).
+Proof. exact PCallFacts.PCall_error_heights. Qed.
+Print Assumptions vm_PCall_error_heights.
+
+(* no handler: the error object delivered is exactly the one raised, the call depth is restored
+   exactly, the value stack is cut back to the callee's slot *)
+Theorem vm_PCall_nohandler_restores : forall ml nargs nret s e sf,
+  Step.Call ml nargs nret s = Machine.VErr e sf ->
+  (length (Machine.vstack s) <= length (Machine.vstack sf))%nat ->
+  exists s', Step.PCall ml nargs nret None s = Machine.VRet (Some e) s' /\
+             length (Machine.vstack s') = length (Machine.vstack s) /\
+             Machine.rtop (Machine.vreg s') = Machine.rtop (Machine.vreg s) - nargs - 1 /\
+             Machine.vstack s' = skipn (length (Machine.vstack sf) - length (Machine.vstack s)) (Machine.vstack sf).
+Proof. exact PCallFacts.PCall_nohandler_restores. Qed.
+Print Assumptions vm_PCall_nohandler_restores.
+
+Theorem vm_PCall_ok_depth : forall ml nargs nret h s s',
+  Step.PCall ml nargs nret h s = Machine.VRet None s' ->
+  (length (Machine.vstack s') <= length (Machine.vstack s))%nat.
+Proof. exact PCallFacts.PCall_ok_depth. Qed.
+Print Assumptions vm_PCall_ok_depth.
+
 (* the full "prefix of the fault-free side effects" statement relates two runs (with and without
    the injected fault); it is kept as a definition: only the single-run extension law above is
    proved, the two-run law is checked by the harness's fault enumeration *)
